@@ -179,7 +179,8 @@ def check(run, replay_case=None):
                     run.violation(pick_sig('wrong-result at=%s entry=%s' % (last(diff_kind(expected[0], val)), entry), c['labels'], c), 'the library resolves to a different value than the rules prescribe (steps %s)' % lab, case,
                                   observed=val, expected=expected[:2])
             # result validates against R; resolving again changes nothing
-            if ve is not None and 'ok' in ve and 'value' in ve['ok']:
+            # (only where the rules prescribe a result: a value returned where they give none is reported above, its follow-ups are not judged)
+            if not exp_err and ve is not None and 'ok' in ve and 'value' in ve['ok']:
                 if not ve['ok'].get('valid', True):
                     run.violation(pick_sig('resolved-value-does-not-validate', c['labels'], c), 'the resolved value does not validate against the reader schema', case, observed=ve['ok'])
                 ag = ve['ok'].get('again')
